@@ -697,4 +697,447 @@ Proof.
       * exfalso. pose proof (Hother _ _ _ Hne Hj' Ht') as Hx. rewrite Hem' in Hx. exact Hx.
       * exists g0. rewrite nth_error_upd_other by exact Hneg. tauto.
 Qed.
+
+Lemma remove_first_NoDup : forall x l, NoDup l -> NoDup (remove_first x l) /\ ~ In x (remove_first x l).
+Proof.
+  induction l as [|y l IH]; simpl; intro H; [split; [constructor|tauto]|].
+  inversion H as [|? ? Hy Hl]; subst. destruct (x =? y) eqn:E.
+  - apply Z.eqb_eq in E. subst. tauto.
+  - apply Z.eqb_neq in E. destruct (IH Hl) as [H1 H2]. split.
+    + constructor; [|exact H1]. intro Hin. apply Hy. eapply remove_first_subset. exact Hin.
+    + simpl. intros [H3|H3]; [congruence|tauto].
+Qed.
+
+Lemma leave_chan_inv : forall s thr jt j gid p,
+  k <> KHttp -> Inv (s_tab s) (s_heap s) thr -> is_join jt j -> nth_error thr jt = Some (TMember gid p) ->
+  exists s', leave_chan k s gid (Z.of_nat jt) = Some s' /\ Inv (s_tab s') (s_heap s') (upd thr jt TLeft) /\
+             s_env s' = s_env s.
+Proof.
+  intros s thr jt j gid p Hk I Hj Ht.
+  pose proof I as [K V TV L E M U ND B].
+  destruct (M _ _ _ _ Hj Ht) as [g [Hg [Hlid Hnm]]].
+  assert (Hmem : members k g = g_lns g) by (destruct k; try reflexivity; congruence).
+  assert (Hl : lid_of k j jt = Z.of_nat jt) by (destruct k; try reflexivity; congruence).
+  assert (Hmne : members k g <> []) by (intro Hm; rewrite Hm in Hlid; exact Hlid).
+  destruct (TV _ _ (L _ _ Hg Hmne)) as [g1 [Hg1 [Hcl _]]]. assert (g1 = g) by congruence. subst g1.
+  pose proof (ND _ _ Hg) as Hnd. rewrite Hmem in Hnd.
+  destruct (remove_first_NoDup (Z.of_nat jt) _ Hnd) as [Hnd' Hnotin].
+  unfold leave_chan. rewrite Hg.
+  destruct (is_nil (remove_first (Z.of_nat jt) (g_lns g))) eqn:En.
+  - rewrite Hcl. eexists. split; [reflexivity|]. simpl. split; [|reflexivity].
+    apply is_nil_true in En.
+    eapply leave_abs_inv with (g := g) (g' := shut g); try eassumption.
+    + intros x Hx. exfalso. destruct k; simpl in Hx; try exact Hx; congruence.
+    + intros x Hx Hne. rewrite Hmem in Hx. rewrite Hl in Hne.
+      pose proof (remove_first_In_other _ _ _ Hx Hne) as H0. rewrite En in H0. destruct H0.
+    + destruct k; try constructor; congruence.
+    + reflexivity.
+    + right. repeat split; destruct k; try reflexivity; congruence.
+  - eexists. split; [reflexivity|]. simpl. split; [|reflexivity].
+    apply is_nil_false in En.
+    assert (Hmem' : members k (set_lns g (remove_first (Z.of_nat jt) (g_lns g))) = remove_first (Z.of_nat jt) (g_lns g))
+      by (destruct k; try reflexivity; congruence).
+    eapply leave_abs_inv with (g := g) (g' := set_lns g (remove_first (Z.of_nat jt) (g_lns g))); try eassumption.
+    + intros x Hx. rewrite Hmem' in Hx. rewrite Hmem, Hl. split; [eapply remove_first_subset; exact Hx|].
+      intro; subst. exact (Hnotin Hx).
+    + intros x Hx Hne. rewrite Hmem', <- Hl. rewrite Hmem in Hx. apply remove_first_In_other; assumption.
+    + rewrite Hmem'. exact Hnd'.
+    + reflexivity.
+    + left. rewrite Hmem'. repeat split; try reflexivity. exact En.
+Qed.
+
+Lemma leave_http_inv : forall s thr jt j gid p,
+  k = KHttp -> Inv (s_tab s) (s_heap s) thr -> is_join jt j -> nth_error thr jt = Some (TMember gid p) ->
+  Inv (s_tab (leave_http s (j_group j) (j_m j))) (s_heap (leave_http s (j_group j) (j_m j))) (upd thr jt TLeft) /\
+  s_env (leave_http s (j_group j) (j_m j)) = s_env s.
+Proof.
+  intros s thr jt j gid p Hk I Hj Ht.
+  pose proof I as [K V TV L E M U ND B].
+  destruct (M _ _ _ _ Hj Ht) as [g [Hg [Hlid Hnm]]].
+  assert (Hmem : members k g = g_funcs g) by (rewrite Hk; reflexivity).
+  assert (Hl : lid_of k j jt = j_m j) by (rewrite Hk; reflexivity).
+  assert (Hmne : members k g <> []) by (intro Hm; rewrite Hm in Hlid; exact Hlid).
+  pose proof (L _ _ Hg Hmne) as Hin. rewrite Hnm in Hin.
+  unfold leave_http. rewrite (In_tab_get _ _ _ K Hin), Hg.
+  pose proof (ND _ _ Hg) as Hnd. rewrite Hmem in Hnd.
+  set (f := filter (fun x => negb (x =? j_m j)) (g_funcs g)).
+  assert (Hf : forall x, In x f <-> In x (g_funcs g) /\ x <> j_m j).
+  { intro x. unfold f. rewrite filter_In. split; intros [H1 H2]; split; try exact H1.
+    - destruct (x =? j_m j) eqn:Eq; [discriminate|]. apply Z.eqb_neq. exact Eq.
+    - apply Z.eqb_neq in H2. rewrite H2. reflexivity. }
+  destruct (is_nil f) eqn:En; simpl; (split; [|reflexivity]).
+  - apply is_nil_true in En.
+    eapply leave_abs_inv with (g := g) (g' := set_http_members g (remove_first (j_m j) (g_lns g)) f false); try eassumption.
+    + intros x Hx. rewrite Hk in Hx. simpl in Hx. rewrite En in Hx. destruct Hx.
+    + intros x Hx Hne. rewrite Hk. simpl. apply Hf. rewrite Hmem in Hx. rewrite Hl in Hne. tauto.
+    + rewrite Hk. simpl. rewrite En. constructor.
+    + reflexivity.
+    + right. rewrite Hk. simpl. rewrite <- Hnm. repeat split. exact En.
+  - apply is_nil_false in En.
+    eapply leave_abs_inv with (g := g) (g' := set_http_members g (remove_first (j_m j) (g_lns g)) f (g_ep g)); try eassumption.
+    + intros x Hx. rewrite Hk in Hx. simpl in Hx. rewrite Hmem, Hl. apply Hf. exact Hx.
+    + intros x Hx Hne. rewrite Hk. simpl. apply Hf. rewrite Hmem in Hx. rewrite Hl in Hne. tauto.
+    + rewrite Hk. simpl. apply NoDup_filter. exact Hnd.
+    + reflexivity.
+    + left. rewrite Hk. simpl. repeat split. exact En.
+Qed.
+
+Definition InvC (c : cfg) : Prop := Inv (s_tab (c_s c)) (s_heap (c_s c)) (c_t c).
+
+Lemma same_proj_set_idx : forall g i, same_proj g (set_idx g i).
+Proof. intros g i. unfold same_proj. destruct k; simpl; repeat split. Qed.
+Lemma same_proj_set_wk : forall g b, same_proj g (set_wk g b).
+Proof. intros g b. unfold same_proj. destruct k; simpl; repeat split. Qed.
+Lemma same_proj_refl : forall g, same_proj g g.
+Proof. intros g. unfold same_proj. repeat split. Qed.
+
+Lemma http_pick_proj : forall g g' o, http_pick g = (g', o) -> g' = set_idx g (g_idx g + 1).
+Proof.
+  intros g g' o H. unfold http_pick in H. destruct (g_lns g); [inversion H; reflexivity|].
+  destruct (nth_error _ _); inversion H; reflexivity.
+Qed.
+
+(* one step of the current code: never a crash, and the invariant is kept *)
+Lemma step_inv : forall i c, InvC c ->
+  exists c', step k reqs i c = Run c' /\ InvC c'.
+Proof.
+  intros i c I. unfold step, stepg. unfold InvC in *.
+  destruct (nth_error reqs i) as [[j|jt|r who|r|r]|] eqn:Er; [| | | | |exists c; split; [reflexivity|exact I]].
+  - (* join *)
+    destruct (nth_error (c_t c) i) as [t|] eqn:Et; [|exists c; split; [reflexivity|exact I]].
+    destruct t; try (exists c; split; [reflexivity|exact I]).
+    destruct (lookup (c_s c) (j_group j)) as [s' gid] eqn:El.
+    destruct (lookup_inv _ _ _ _ _ I El) as [I' [Hin _]].
+    destruct (mutate k s' gid j (lid_of k j i)) as [s'' r] eqn:Em.
+    eexists. split; [reflexivity|]. simpl.
+    eapply mutate_inv; eassumption.
+  - (* leave *)
+    destruct (nth_error (c_t c) i) as [t|] eqn:Et; [|exists c; split; [reflexivity|exact I]].
+    destruct t; try (exists c; split; [reflexivity|exact I]).
+    destruct (nth_error reqs jt) as [[j| | | |]|] eqn:Ej; try (exists c; split; [reflexivity|exact I]).
+    destruct (nth_error (c_t c) jt) as [tj|] eqn:Etj; [|exists c; split; [reflexivity|exact I]].
+    destruct tj; try (exists c; split; [reflexivity|exact I]).
+    assert (Hne : i <> jt) by (intro; subst; congruence).
+    assert (Hti : nth_error (upd (c_t c) jt TLeft) i = Some TInit) by (rewrite nth_error_upd_other by congruence; exact Et).
+    destruct (kind_http_dec k) as [Hk|Hk].
+    + exists (let s' := leave_http (c_s c) (j_group j) (j_m j) in set_t (set_t c s' jt TLeft) s' i TDone). split.
+      * rewrite Hk. reflexivity.
+      * simpl. destruct (leave_http_inv _ _ _ _ _ _ Hk I Ej Etj) as [I' _].
+        eapply Inv_thr_passive; [exact I'|exact Hti|exact Logic.I|exact Logic.I].
+    + destruct (leave_chan_inv (c_s c) _ _ _ _ _ Hk I Ej Etj) as [s' [Hs' [I' _]]].
+      exists (set_t (set_t c s' jt TLeft) s' i TDone). split.
+      * destruct k; try congruence; rewrite Hs'; reflexivity.
+      * simpl. eapply Inv_thr_passive; [exact I'|exact Hti|exact Logic.I|exact Logic.I].
+  - (* connection *)
+    destruct (nth_error (c_t c) i) as [t|] eqn:Et; [|exists c; split; [reflexivity|exact I]].
+    destruct t; try (exists c; split; [reflexivity|exact I]).
+    + (* accept *)
+      destruct (find_ep k (c_s c) r) as [gid|].
+      2:{ eexists. split; [reflexivity|]. simpl. eapply Inv_thr_passive; [exact I|exact Et|exact Logic.I|exact Logic.I]. }
+      destruct (nth_error (s_heap (c_s c)) gid) as [g|] eqn:Eg; [|exists c; split; [reflexivity|exact I]].
+      destruct (kind_http_dec k) as [Hk|Hk].
+      * destruct (http_pick g) as [g' o] eqn:Ep.
+        exists (set_t c (set_heap (c_s c) (upd (s_heap (c_s c)) gid g')) i (TConn o)). split.
+        { rewrite Hk. reflexivity. }
+        simpl. apply http_pick_proj in Ep. subst g'.
+        eapply Inv_thr_passive; [|exact Et|exact Logic.I|exact Logic.I].
+        eapply Inv_heap_same; [exact I|exact Eg|apply same_proj_set_idx].
+      * assert (Hs : exists c', (if g_wk g then if existsb (is_held gid (g_gen g)) (c_t c) then Run c else Run (set_t c (c_s c) i (THeld gid (g_gen g)))
+                          else Run (mark_lost (set_t c (c_s c) i (TConn CStranded)) (negb (is_nil (g_lns g))))) = Run c' /\
+                          Inv (s_tab (c_s c')) (s_heap (c_s c')) (c_t c')).
+        { destruct (g_wk g); [destruct (existsb _ _)|]; eexists; (split; [reflexivity|]); simpl; try exact I;
+            (eapply Inv_thr_passive; [exact I|exact Et|exact Logic.I|exact Logic.I]). }
+        destruct k; try congruence; exact Hs.
+    + (* hand-off *)
+      destruct (nth_error (s_heap (c_s c)) gid) as [g|] eqn:Eg; [|exists c; split; [reflexivity|exact I]].
+      destruct (g_closed g).
+      * eexists. split; [reflexivity|]. simpl.
+        eapply Inv_thr_passive; [|exact Et|exact Logic.I|exact Logic.I].
+        eapply Inv_heap_same; [exact I|exact Eg|]. destruct (gen =? g_gen g); [apply same_proj_set_wk|apply same_proj_refl].
+      * destruct (zmem who (g_lns g)); [|exists c; split; [reflexivity|exact I]].
+        eexists. split; [reflexivity|]. simpl. eapply Inv_thr_passive; [exact I|exact Et|exact Logic.I|exact Logic.I].
+  - destruct (nth_error (c_t c) i) as [t|] eqn:Et; [|exists c; split; [reflexivity|exact I]].
+    destruct t; try (exists c; split; [reflexivity|exact I]).
+    destruct (rmem r (s_used (c_s c))); eexists; (split; [reflexivity|]); simpl;
+      (eapply Inv_thr_passive; [exact I|exact Et|exact Logic.I|exact Logic.I]).
+  - destruct (nth_error (c_t c) i) as [t|] eqn:Et; [|exists c; split; [reflexivity|exact I]].
+    destruct t; try (exists c; split; [reflexivity|exact I]).
+    destruct (rmem r (s_env (c_s c))); eexists; (split; [reflexivity|]); simpl;
+      (eapply Inv_thr_passive; [exact I|exact Et|exact Logic.I|exact Logic.I]).
+Qed.
+
+Lemma run_inv : forall sched c, InvC c -> exists c', run k reqs sched (Run c) = Run c' /\ InvC c'.
+Proof.
+  induction sched as [|i sched IH]; intros c I; [exists c; split; [reflexivity|exact I]|].
+  destruct (step_inv i c I) as [c1 [H1 I1]]. destruct (IH c1 I1) as [c' [H' I']].
+  exists c'. split; [|exact I']. unfold run in *. simpl. fold (step k reqs i c). rewrite H1. exact H'.
+Qed.
+
+Lemma nth_error_repeat_inv : forall A (x y : A) n i, nth_error (repeat x n) i = Some y -> y = x.
+Proof. intros A x y n i H. apply nth_error_In in H. apply repeat_spec in H. exact H. Qed.
+
+Lemma nth_error_nil_inv : forall A i (x : A), nth_error [] i = Some x -> False.
+Proof. intros A i x H. destruct i; discriminate. Qed.
+
+Lemma init_inv : forall lo hi n, InvC (init_cfg lo hi n).
+Proof.
+  intros lo hi n. unfold InvC. simpl. constructor; simpl.
+  - constructor.
+  - constructor.
+  - tauto.
+  - intros gid0 g0 H. destruct (nth_error_nil_inv _ _ _ H).
+  - intros gid0 g0 H. destruct (nth_error_nil_inv _ _ _ H).
+  - intros i j gid0 p _ H. apply nth_error_repeat_inv in H. discriminate.
+  - intros i i' j j' gid0 p p' _ _ H. apply nth_error_repeat_inv in H. discriminate.
+  - intros gid0 g0 H. destruct (nth_error_nil_inv _ _ _ H).
+  - intros gid0 g0 x H. destruct (nth_error_nil_inv _ _ _ H).
+Qed.
+
+Lemma run_from_init : forall sched lo hi, exists c', run k reqs sched (init lo hi reqs) = Run c' /\ InvC c'.
+Proof. intros. apply run_inv. apply init_inv. Qed.
 End Sched.
+
+(* ------------------------------------------------------------------ *)
+(* for all schedules                                                   *)
+(* ------------------------------------------------------------------ *)
+Theorem never_crash : forall k reqs sched lo hi, run k reqs sched (init lo hi reqs) <> Crashed.
+Proof. intros. destruct (run_from_init k reqs sched lo hi) as [c' [H _]]. rewrite H. discriminate. Qed.
+
+Lemma find_ep_from_some : forall k h i r gid, find_ep_from k h i r = Some gid ->
+  exists g, (i <= gid)%nat /\ nth_error h (gid - i) = Some g /\ g_ep g = true /\ g_res k g = r.
+Proof.
+  induction h as [|g h IH]; simpl; intros i r gid H; [discriminate|].
+  destruct (g_ep g && lz_eqb (g_res k g) r) eqn:E.
+  - inversion H; subst. apply andb_prop in E. destruct E as [E1 E2]. apply lz_eqb_eq in E2.
+    exists g. rewrite Nat.sub_diag. simpl. auto.
+  - destruct (IH _ _ _ H) as [g0 [H1 [H2 H3]]]. exists g0. split; [lia|]. split; [|exact H3].
+    replace (gid - i)%nat with (S (gid - S i)) by lia. simpl. exact H2.
+Qed.
+
+Lemma find_ep_from_none : forall k h i r, find_ep_from k h i r = None ->
+  forall gid g, nth_error h gid = Some g -> g_ep g = true -> g_res k g = r -> False.
+Proof.
+  induction h as [|g h IH]; simpl; intros i r H gid g0 Hg He Hr; [destruct gid; discriminate|].
+  destruct (g_ep g && lz_eqb (g_res k g) r) eqn:E; [discriminate|].
+  destruct gid; simpl in Hg.
+  - inversion Hg; subst. rewrite He, lz_eqb_refl in E. discriminate.
+  - eapply IH; eassumption.
+Qed.
+
+(* the real listener / route of a group answers on r  <->  the controller's table holds a group
+   with at least one member whose endpoint is r *)
+Theorem endpoint_iff_members : forall k reqs sched lo hi c,
+  run k reqs sched (init lo hi reqs) = Run c ->
+  forall r, ep_open k (c_s c) r = true <-> tab_has_live k (c_s c) r = true.
+Proof.
+  intros k reqs sched lo hi c H r.
+  destruct (run_from_init k reqs sched lo hi) as [c' [H' I]]. rewrite H in H'. inversion H'; subst c'. clear H'.
+  destruct I as [K V TV L E M U ND B].
+  unfold ep_open, tab_has_live, find_ep. split; intro Hx.
+  - destruct (find_ep_from k (s_heap (c_s c)) 0 r) as [gid|] eqn:Ef; [|discriminate].
+    apply find_ep_from_some in Ef. destruct Ef as [g [_ [Hg [He Hr]]]]. rewrite Nat.sub_0_r in Hg.
+    assert (Hm : members k g <> []) by (apply (E _ _ Hg); exact He).
+    apply existsb_exists. exists (g_name g, gid). split; [apply (L _ _ Hg Hm)|]. simpl. rewrite Hg.
+    apply is_nil_false in Hm. rewrite Hm. simpl. apply lz_eqb_eq. exact Hr.
+  - apply existsb_exists in Hx. destruct Hx as [[n gid] [Hin Hx]]. simpl in Hx.
+    destruct (nth_error (s_heap (c_s c)) gid) as [g|] eqn:Hg; [|discriminate].
+    apply andb_prop in Hx. destruct Hx as [H1 H2]. apply negb_true_iff in H1. apply is_nil_false in H1.
+    apply lz_eqb_eq in H2.
+    destruct (find_ep_from k (s_heap (c_s c)) 0 r) eqn:Ef; [reflexivity|].
+    exfalso. eapply find_ep_from_none; try eassumption. apply (E _ _ Hg). exact H1.
+Qed.
+
+(* a group object that is not in the table has no members, no endpoint and is never joined again:
+   nothing is left over of a group after its last leave *)
+Theorem detached_is_dead : forall k reqs sched lo hi c,
+  run k reqs sched (init lo hi reqs) = Run c ->
+  forall gid g, nth_error (s_heap (c_s c)) gid = Some g ->
+  (forall n, ~ In (n, gid) (s_tab (c_s c))) -> members k g = [] /\ g_ep g = false.
+Proof.
+  intros k reqs sched lo hi c H gid g Hg Hnot.
+  destruct (run_from_init k reqs sched lo hi) as [c' [H' I]]. rewrite H in H'. inversion H'; subst c'. clear H'.
+  destruct I as [K V TV L E M U ND B].
+  assert (Hm : members k g = []).
+  { destruct (members k g) eqn:Em; [reflexivity|]. exfalso. apply (Hnot (g_name g)). apply (L _ _ Hg). congruence. }
+  split; [exact Hm|]. destruct (g_ep g) eqn:Ee; [|reflexivity]. exfalso. apply (E _ _ Hg); assumption.
+Qed.
+
+(* members recorded in the objects are exactly the threads that joined and have not left *)
+Theorem members_are_holders : forall k reqs sched lo hi c,
+  run k reqs sched (init lo hi reqs) = Run c ->
+  (forall i j gid p, nth_error reqs i = Some (QJoin j) -> nth_error (c_t c) i = Some (TMember gid p) ->
+     exists g, nth_error (s_heap (c_s c)) gid = Some g /\ In (lid_of k j i) (members k g) /\ g_name g = j_group j /\
+               In (j_group j, gid) (s_tab (c_s c)) /\ g_closed g = false /\ g_ep g = true) /\
+  (forall gid g x, nth_error (s_heap (c_s c)) gid = Some g -> In x (members k g) ->
+     exists i j p, nth_error reqs i = Some (QJoin j) /\ nth_error (c_t c) i = Some (TMember gid p) /\ lid_of k j i = x).
+Proof.
+  intros k reqs sched lo hi c H.
+  destruct (run_from_init k reqs sched lo hi) as [c' [H' I]]. rewrite H in H'. inversion H'; subst c'. clear H'.
+  destruct I as [K V TV L E M U ND B]. split; [|exact B].
+  intros i j gid p Hj Ht. destruct (M _ _ _ _ Hj Ht) as [g [Hg [Hl Hn]]]. exists g.
+  assert (Hm : members k g <> []) by (intro Hm; rewrite Hm in Hl; exact Hl).
+  pose proof (L _ _ Hg Hm) as Hin. destruct (TV _ _ Hin) as [g1 [Hg1 [Hc _]]]. assert (g1 = g) by congruence. subst g1.
+  repeat split; try assumption; [rewrite <- Hn; exact Hin|apply (E _ _ Hg); exact Hm].
+Qed.
+
+(* ------------------------------------------------------------------ *)
+(* recreate after the last leave                                       *)
+(* ------------------------------------------------------------------ *)
+Lemma tab_get_tab_del : forall t n, tab_get (tab_del t n) n = None.
+Proof.
+  induction t as [|[a b] t IH]; simpl; intro n; [reflexivity|].
+  destruct (a =? n) eqn:E; simpl; [apply IH|]. rewrite E. apply IH.
+Qed.
+
+(* tcp / tcpmux: the only member leaves; a join under the same name with the same endpoint
+   parameters and ANY key is then a successful first join of a fresh group object *)
+Lemma recreate_chan : forall k s gid g lid s' j' lid',
+  k <> KHttp -> nth_error (s_heap s) gid = Some g -> g_lns g = [lid] ->
+  leave_chan k s gid lid = Some s' ->
+  j_group j' = g_name g -> j_par j' = g_par g ->
+  (k = KTcp -> j_port j' = g_real g /\ g_real g <> 0 /\ allowed s (g_real g) = true /\ j_os j' = true /\ j_lis j' = true) ->
+  (k = KMux -> j_mux j' = true) ->
+  exists s'' p, join_seq k s' j' lid' = (s'', JOk p).
+Proof.
+  intros k s gid g lid s' j' lid' Hk Hg Hl Hlv Hn Hp Ht Hm.
+  unfold leave_chan in Hlv. rewrite Hg, Hl in Hlv. simpl in Hlv. rewrite Z.eqb_refl in Hlv. simpl in Hlv.
+  destruct (g_closed g); [discriminate|]. inversion Hlv; subst s'. clear Hlv.
+  unfold join_seq, lookup. simpl. rewrite Hn, tab_get_tab_del.
+  unfold mutate. cbn [s_heap set_heap set_tab set_used]. rewrite nth_error_app_new.
+  destruct k; [| congruence |].
+  - destruct (Ht eq_refl) as [H1 [H2 [H3 [H4 H5]]]].
+    simpl. unfold acquire. simpl. apply Z.eqb_neq in H2. rewrite H1, H2. unfold allowed in *. simpl. rewrite H3.
+    unfold g_res. simpl. rewrite rmem_rdel_same. simpl. rewrite H4, H5. simpl.
+    eexists; eexists. reflexivity.
+  - simpl. rewrite (Hm eq_refl). simpl. unfold g_res. simpl. rewrite Hp, rmem_rdel_same.
+    eexists; eexists. reflexivity.
+Qed.
+
+(* http: the only member leaves; the route can be registered again at once by a new group *)
+Lemma recreate_http : forall s gid g m j',
+  tab_get (s_tab s) (g_name g) = Some gid -> nth_error (s_heap s) gid = Some g -> g_funcs g = [m] ->
+  j_group j' = g_name g -> j_par j' = g_par g ->
+  exists s'' p, join_seq KHttp (leave_http s (g_name g) m) j' (j_m j') = (s'', JOk p).
+Proof.
+  intros s gid g m j' Ht Hg Hf Hn Hp.
+  unfold leave_http. rewrite Ht, Hg, Hf. simpl. rewrite Z.eqb_refl. simpl.
+  unfold join_seq, lookup. simpl. rewrite Hn, tab_get_tab_del.
+  unfold mutate. cbn [s_heap set_heap set_tab set_used]. rewrite nth_error_app_new.
+  simpl. unfold g_res. simpl. rewrite Hp, rmem_rdel_same.
+  eexists; eexists. reflexivity.
+Qed.
+
+(* ------------------------------------------------------------------ *)
+(* hand-off and rotation, step level                                    *)
+(* ------------------------------------------------------------------ *)
+(* a connection is handed over only to a listener that is a member of the group object at that
+   very moment, and the step delivers it to exactly that one *)
+Lemma handoff_to_member : forall k reqs i c c' r who gid gen m,
+  k <> KHttp -> nth_error reqs i = Some (QConn r who) -> nth_error (c_t c) i = Some (THeld gid gen) ->
+  step k reqs i c = Run c' -> nth_error (c_t c') i = Some (TConn (CTo m)) ->
+  m = who /\ exists g, nth_error (s_heap (c_s c)) gid = Some g /\ In m (g_lns g) /\ g_closed g = false.
+Proof.
+  intros k reqs i c c' r who gid gen m Hk Hr Ht Hs Hc.
+  unfold step, stepg in Hs. rewrite Hr, Ht in Hs.
+  destruct (nth_error (s_heap (c_s c)) gid) as [g|] eqn:Eg; [|inversion Hs; subst; congruence].
+  destruct (g_closed g) eqn:Ec.
+  - inversion Hs; subst. simpl in Hc. rewrite nth_error_upd_same in Hc by (eapply nth_error_lt; exact Ht). discriminate.
+  - destruct (zmem who (g_lns g)) eqn:Ez; [|inversion Hs; subst; congruence].
+    inversion Hs; subst. simpl in Hc. rewrite nth_error_upd_same in Hc by (eapply nth_error_lt; exact Ht).
+    inversion Hc; subst. split; [reflexivity|]. exists g. apply zmem_In in Ez. auto.
+Qed.
+
+(* http: request number n (counting from 1) after counter value i0 goes to pxyNames[(i0+n) mod len] *)
+Lemma http_pick_member : forall g g' o, http_pick g = (g', o) -> g_lns g <> [] ->
+  (forall x, In x (g_lns g) -> In x (g_funcs g)) ->
+  g_idx g' = g_idx g + 1 /\ g_lns g' = g_lns g /\ g_funcs g' = g_funcs g /\
+  exists name, nth_error (g_lns g) (Z.to_nat ((g_idx g + 1) mod Z.of_nat (length (g_lns g)))) = Some name /\ o = CTo name.
+Proof.
+  intros g g' o H Hne Hsub. unfold http_pick in H.
+  destruct (g_lns g) as [|a l] eqn:El; [congruence|].
+  assert (Hlt : (Z.to_nat ((g_idx g + 1) mod Z.of_nat (length (a :: l))) < length (a :: l))%nat).
+  { assert (0 < Z.of_nat (length (a :: l))) by (simpl; lia).
+    pose proof (Z.mod_pos_bound (g_idx g + 1) _ H0). lia. }
+  destruct (nth_error (a :: l) _) as [name|] eqn:En; [|apply nth_error_None in En; lia].
+  inversion H; subst. simpl. repeat split; try assumption.
+  exists name. split; [reflexivity|]. assert (Hin : In name (g_funcs g)) by (apply Hsub; eapply nth_error_In; exact En).
+  apply zmem_In in Hin. rewrite Hin. reflexivity.
+Qed.
+
+(* ------------------------------------------------------------------ *)
+(* regression witnesses: the code before the repair of F-C13 (two-step join)  *)
+(* ------------------------------------------------------------------ *)
+Definition wj (par : list Z) (port m : Z) : req :=
+  QJoin {| j_m := m; j_group := 7; j_key := 5; j_par := par; j_port := port; j_pick := 0;
+           j_os := true; j_lis := true; j_mux := true |}.
+Definition old_reqs (par : list Z) (port : Z) : list req :=
+  [wj par port 1; wj par port 2; QLeave 0%nat; QLeave 1%nat; wj par port 3].
+(* J0 joins | J1 looks the group up | last leave of J0 | J1 mutates the detached object | J1 leaves *)
+Definition old_sched : list nat := [0; 0; 1; 2; 1; 3]%nat.
+
+Lemma old_two_step_join_crashes_tcp :
+  run2 KTcp (old_reqs [1] 21300) old_sched (init 21300 21399 (old_reqs [1] 21300)) = Crashed.
+Proof. vm_compute. reflexivity. Qed.
+
+Lemma old_two_step_join_crashes_mux :
+  run2 KMux (old_reqs [1; 0; 0; 0] 0) old_sched (init 0 0 (old_reqs [1; 0; 0; 0] 0)) = Crashed.
+Proof. vm_compute. reflexivity. Qed.
+
+(* http: no crash, but the route stays registered for ever and a new group cannot take it *)
+Lemma old_two_step_join_leaks_route_http :
+  exists c, run2 KHttp (old_reqs [1; 2; 3] 0) (old_sched ++ [4; 4]%nat) (init 0 0 (old_reqs [1; 2; 3] 0)) = Run c /\
+    no_member c = true /\ ep_open KHttp (c_s c) [1; 2; 3] = true /\ tab_has_live KHttp (c_s c) [1; 2; 3] = false /\
+    nth_error (c_t c) 4 = Some (TRefused ERouteConflict).
+Proof. eexists. split; [vm_compute; reflexivity|]. vm_compute. repeat split. Qed.
+
+(* the same requests and the same schedule on the current (atomic) model: nothing of the sort *)
+Lemma same_schedule_now_fine :
+  exists c, run KTcp (old_reqs [1] 21300) (old_sched ++ [4]%nat) (init 21300 21399 (old_reqs [1] 21300)) = Run c /\
+    nth_error (c_t c) 4 = Some (TMember 1 21300) /\ c_lost c = false.
+Proof. eexists. split; [vm_compute; reflexivity|]. vm_compute. repeat split. Qed.
+
+Lemma old_no_overlap_excludes_witness :
+  no_overlap KTcp (old_reqs [1] 21300) old_sched (init 21300 21399 (old_reqs [1] 21300)) = false.
+Proof. vm_compute. reflexivity. Qed.
+
+(* F-C10c: a refused FIRST join leaves an empty group object in the controller's table *)
+Lemma refused_first_join_shell_witness :
+  exists c, run KTcp [QEnvTake [21300]; wj [1] 21300 1] [0; 1]%nat (init 21300 21399 [QEnvTake [21300]; wj [1] 21300 1]) = Run c /\
+    nth_error (c_t c) 1 = Some (TRefused EPortUsed) /\ s_tab (c_s c) = [(7, 0%nat)] /\
+    nth_error (s_heap (c_s c)) 0 = Some new_grp.
+Proof. eexists. split; [vm_compute; reflexivity|]. vm_compute. repeat split. Qed.
+
+(* for all schedules: whenever a thread is the only member of its group, its leave succeeds and
+   the group can be created again at once (same name, same endpoint, any key) *)
+Theorem recreate_after_last_leave_chan : forall k reqs sched lo hi c jt j gid p g,
+  k <> KHttp -> run k reqs sched (init lo hi reqs) = Run c ->
+  nth_error reqs jt = Some (QJoin j) -> nth_error (c_t c) jt = Some (TMember gid p) ->
+  nth_error (s_heap (c_s c)) gid = Some g -> g_lns g = [Z.of_nat jt] ->
+  exists s', leave_chan k (c_s c) gid (Z.of_nat jt) = Some s' /\
+    forall j' lid', j_group j' = g_name g -> j_par j' = g_par g ->
+      (k = KTcp -> j_port j' = g_real g /\ g_real g <> 0 /\ allowed (c_s c) (g_real g) = true /\ j_os j' = true /\ j_lis j' = true) ->
+      (k = KMux -> j_mux j' = true) ->
+      exists s'' p', join_seq k s' j' lid' = (s'', JOk p').
+Proof.
+  intros k reqs sched lo hi c jt j gid p g Hk H Hj Ht Hg Hl.
+  destruct (run_from_init k reqs sched lo hi) as [c' [H' I]]. rewrite H in H'. inversion H'; subst c'. clear H'.
+  destruct (leave_chan_inv k reqs (c_s c) (c_t c) jt j gid p Hk I Hj Ht) as [s' [Hs' _]].
+  exists s'. split; [exact Hs'|]. intros j' lid' H1 H2 H3 H4. eapply recreate_chan; eassumption.
+Qed.
+
+Theorem recreate_after_last_leave_http : forall reqs sched lo hi c jt j gid p g,
+  run KHttp reqs sched (init lo hi reqs) = Run c ->
+  nth_error reqs jt = Some (QJoin j) -> nth_error (c_t c) jt = Some (TMember gid p) ->
+  nth_error (s_heap (c_s c)) gid = Some g -> g_funcs g = [j_m j] ->
+  forall j', j_group j' = j_group j -> j_par j' = g_par g ->
+    exists s'' p', join_seq KHttp (leave_http (c_s c) (j_group j) (j_m j)) j' (j_m j') = (s'', JOk p').
+Proof.
+  intros reqs sched lo hi c jt j gid p g H Hj Ht Hg Hf j' H1 H2.
+  destruct (run_from_init KHttp reqs sched lo hi) as [c' [H' I]]. rewrite H in H'. inversion H'; subst c'. clear H'.
+  destruct I as [K V TV L E M U ND B].
+  destruct (M _ _ _ _ Hj Ht) as [g0 [Hg0 [Hl Hn]]]. assert (g0 = g) by congruence. subst g0.
+  assert (Hm : members KHttp g <> []) by (intro Hm; rewrite Hm in Hl; exact Hl).
+  pose proof (L _ _ Hg Hm) as Hin. rewrite <- Hn.
+  eapply recreate_http; try eassumption; try congruence.
+  apply In_tab_get; assumption.
+Qed.
